@@ -30,7 +30,7 @@ func jobsFor(cfg *config) []*Job {
 	switch cfg.prop {
 	case "C18":
 		if thorough {
-			add("c18-race-t128", "t128", true, "c18", "", 60000, 900, 1)
+			add("c18-race-t128", "t128", true, "c18", "", 50000, 1500, 1)
 			add("c18-race-t2", "t2", true, "c18", "", 20000, 400, 2)
 			add("c18-race-t16", "t16", true, "c18", "", 20000, 400, 3)
 			add("c18-value-t128", "t128", false, "c18", "", 120000, 400, 4)
@@ -52,10 +52,10 @@ func jobsFor(cfg *config) []*Job {
 		}
 	case "C06":
 		if thorough {
-			add("c06-prior-state-t128", "t128", false, "reg", "c06", 300000, 900, 1)
-			add("c06-prior-state-t16", "t16", false, "reg", "c06", 100000, 400, 2)
-			add("c06-prior-state-t2", "t2", false, "reg", "c06", 100000, 400, 3)
-			add("c06-combined-t128", "t128", false, "reg", "both", 200000, 600, 4)
+			add("c06-prior-state-t128", "t128", false, "reg", "c06", 110000, 1500, 1)
+			add("c06-prior-state-t16", "t16", false, "reg", "c06", 50000, 800, 2)
+			add("c06-prior-state-t2", "t2", false, "reg", "c06", 70000, 800, 3)
+			add("c06-combined-t128", "t128", false, "reg", "both", 180000, 1200, 4)
 			add("c06-combined-t2", "t2", false, "reg", "both", 60000, 300, 5)
 		} else {
 			add("c06-prior-state-t128", "t128", false, "reg", "c06", 6000, 120, 1)
@@ -64,10 +64,10 @@ func jobsFor(cfg *config) []*Job {
 		}
 	case "C05":
 		if thorough {
-			add("c05-alias-t128", "t128", false, "reg", "c05", 300000, 900, 1)
-			add("c05-alias-t16", "t16", false, "reg", "c05", 100000, 400, 2)
-			add("c05-alias-t2", "t2", false, "reg", "c05", 100000, 400, 3)
-			add("c05-combined-t128", "t128", false, "reg", "both", 200000, 600, 5)
+			add("c05-alias-t128", "t128", false, "reg", "c05", 150000, 1500, 1)
+			add("c05-alias-t16", "t16", false, "reg", "c05", 60000, 800, 2)
+			add("c05-alias-t2", "t2", false, "reg", "c05", 60000, 800, 3)
+			add("c05-combined-t128", "t128", false, "reg", "both", 150000, 1200, 5)
 			add("c05-bigint-alias", "t128", false, "big", "alias", 600000, 600, 4)
 		} else {
 			add("c05-alias-t128", "t128", false, "reg", "c05", 10000, 120, 1)
@@ -77,8 +77,8 @@ func jobsFor(cfg *config) []*Job {
 		}
 	case "C16":
 		if thorough {
-			add("c16-machine", "t128", false, "big", "", 3000000, 1200, 1)
-			add("c16-faults", "t128", false, "big", "faults", 600000, 400, 2)
+			add("c16-machine", "t128", false, "big", "", 1000000, 1800, 1)
+			add("c16-faults", "t128", false, "big", "faults", 400000, 900, 2)
 		} else {
 			add("c16-machine", "t128", false, "big", "", 80000, 120, 1)
 			add("c16-faults", "t128", false, "big", "faults", 20000, 60, 2)
